@@ -49,7 +49,7 @@ int verif_c17_whit;               /* sticky: the watched position has been writt
 wide c17_exp_r, c17_exp_px, c17_exp_py, c17_exp_s;
 #endif
 /* logs that live within one iteration / after the loops */
-int c17_last_inf, c17_phase, c17_init_n; secp256k1_scalar c17_e; unsigned char c17_dig[32]; secp256k1_gej c17_em_r;
+int c17_last_inf, c17_phase, c17_init_n; size_t c17_mul_n; secp256k1_scalar c17_e; unsigned char c17_dig[32]; secp256k1_gej c17_em_r;
 
 #ifndef VERIF_NATIVE
 static inline wide c17_le256(const unsigned char *b) { wide v = 0; int i; for (i = 31; i >= 0; i--) v = (v << 8) | W(b[i]); return v; }
@@ -133,8 +133,8 @@ __CPROVER_ensures(C17_UPD(verif_c17_bad, g_gen_n == 0 && !((__CPROVER_old(c17_ph
 static void secp256k1_scalar_mul(secp256k1_scalar *r, const secp256k1_scalar *a, const secp256k1_scalar *b)
 __CPROVER_requires(__CPROVER_w_ok(r, sizeof(*r)) && __CPROVER_r_ok(a, sizeof(*a)) && __CPROVER_r_ok(b, sizeof(*b)))
 __CPROVER_requires(scalar_ok(a) && scalar_ok(b))
-__CPROVER_assigns(*r, verif_c17_bad)
-__CPROVER_ensures(scalar_ok(r))
+__CPROVER_assigns(*r, verif_c17_bad, c17_mul_n)
+__CPROVER_ensures(scalar_ok(r) && c17_mul_n == __CPROVER_old(c17_mul_n) + 1)
 __CPROVER_ensures(C17_UPD(verif_c17_bad, !C17_MUL_OK))
 ;
 #endif
